@@ -46,7 +46,7 @@ impl Prop for C09 {
         "C09"
     }
     fn rule(&self) -> String {
-        "12 magnitudes (absolute zero, -40, freezing/boiling points, fractions) x all 36 ordered pairs of the six scale spellings (K kelvin °C celsius °F fahrenheit) as direct conversions; all chains x S1 to S2 to S3 [to S4] over the three scales (thorough: all six spellings); exact inverse; scales not alone with power one: S^n (n in -3..3 except 1), S*u, S/u, u/S, u*S*v with u,v in {m,s,J,kg} converted to the same shape over another scale: result must be an error or the interval conversion (°C->K x1, °F->K x5/9 per power) and never contain the zero-point offset. Non-trivial = source and target scale differ; distinct = distinct query strings".into()
+        "12 magnitudes (absolute zero, -40, freezing/boiling points, fractions) x all 36 ordered pairs of the six scale spellings (K kelvin °C celsius °F fahrenheit) as direct conversions; all chains x S1 to S2 to S3 [to S4] over the three scales (thorough: all six spellings); exact inverse; prefixed scales (m k n G milli kilo on K/°C/°F and their long names: every ordered pair of 21 words x 5 magnitudes, and chains through a prefixed scale; judged only when the tool reads the word as that prefixed scale); scales not alone with power one: S^n (n in -3..3 except 1), S*u, S/u, u/S, u*S*v with u,v in {m,s,J,kg} converted to the same shape over another scale: result must be an error or the interval conversion (°C->K x1, °F->K x5/9 per power) and never contain the zero-point offset. Non-trivial = source and target scale differ; distinct = distinct query strings".into()
     }
     fn assumptions(&self) -> Vec<String> {
         vec!["K = C + 273.15 and C = (F - 32) * 5/9 are written out in the harness, independent of src/units/temperature.rs".into()]
@@ -71,6 +71,46 @@ impl Prop for C09 {
                         for d in &sc {
                             sink(Case::with("chain4", format!("{x} {a} to {b} to {c} to {d}"), serde_json::json!({"x": x, "chain": [a, b, c, d]})));
                         }
+                    }
+                }
+            }
+        }
+        // prefixed scales: a prefixed kelvin / degree is that many kelvins / degrees ("for every magnitude";
+        // the prefix scales the number on its own scale, the zero point is added on the unprefixed scale)
+        let sym_scales = [("K", 'K'), ("°C", 'C'), ("°F", 'F')];
+        let long_scales = [("kelvin", 'K'), ("celsius", 'C'), ("fahrenheit", 'F')];
+        let sym_pfx = [("", 0i64), ("m", -3), ("k", 3), ("n", -9), ("G", 9)];
+        let long_pfx = [("", 0i64), ("milli", -3), ("kilo", 3)];
+        let mut words: Vec<(String, char, i64)> = Vec::new();
+        for (s, k) in sym_scales {
+            for (p, e) in sym_pfx {
+                words.push((format!("{p}{s}"), k, e));
+            }
+        }
+        for (s, k) in long_scales {
+            for (p, e) in long_pfx {
+                if !p.is_empty() {
+                    words.push((format!("{p}{s}"), k, e));
+                }
+            }
+        }
+        let j = |w: &(String, char, i64)| serde_json::json!([w.0, w.1.to_string(), w.2]);
+        for x in ["0", "1", "-40", "273.15", "37"] {
+            for a in &words {
+                for b in &words {
+                    if a.2 == 0 && b.2 == 0 {
+                        continue;
+                    }
+                    sink(Case::with("pfx-direct", format!("{x} {} to {}", a.0, b.0), serde_json::json!({"x": x, "pchain": [j(a), j(b)]})));
+                }
+            }
+        }
+        let plain: Vec<(String, char, i64)> = sym_scales.iter().map(|(s, k)| (s.to_string(), *k, 0)).collect();
+        for x in ["25", "-40", "0.5"] {
+            for a in &plain {
+                for c in &plain {
+                    for b in words.iter().filter(|w| w.2 != 0) {
+                        sink(Case::with("pfx-chain", format!("{x} {} to {} to {}", a.0, b.0, c.0), serde_json::json!({"x": x, "pchain": [j(a), j(b), j(c)]})));
                     }
                 }
             }
@@ -118,6 +158,37 @@ impl Prop for C09 {
         let x = ref_decimal(case.data["x"].as_str().unwrap()).unwrap();
         let kind = |s: &str| SCALES.iter().find(|e| e.0 == s).map(|e| e.1).unwrap();
         match case.fam {
+            "pfx-direct" | "pfx-chain" => {
+                let chain: Vec<(String, char, i64)> = case.data["pchain"]
+                    .as_array()
+                    .unwrap()
+                    .iter()
+                    .map(|e| (e[0].as_str().unwrap().to_string(), e[1].as_str().unwrap().chars().next().unwrap(), e[2].as_i64().unwrap()))
+                    .collect();
+                // judged only when the tool itself reads every word as that prefixed scale
+                // (`mK` may legitimately be read as metre*kelvin: C05 allows any valid reading)
+                for (w, k, p) in &chain {
+                    match obs::eval_one(env.db(), &format!("1 {w}")) {
+                        Ok(Res::Ok { unit, .. }) if unit.len() == 1 && unit[0].1 == 1 && unit[0].2 as i64 == *p && scale_of_key(&unit[0].0) == Some(*k) => {}
+                        _ => return Verdict::DontCare("word not read as a prefixed temperature scale"),
+                    }
+                }
+                let (from, to) = (&chain[0], &chain[chain.len() - 1]);
+                let want = from_k(&to_k(&(&x * obs::pow10(from.2)), from.1), to.1) / obs::pow10(to.2);
+                let sig = format!("{}:{}->{}:", case.fam, from.1, to.1);
+                match &got {
+                    Res::Ok { value, unit, unit_text } => {
+                        if unit.len() != 1 || unit[0].1 != 1 || unit[0].2 as i64 != to.2 || scale_of_key(&unit[0].0) != Some(to.1) {
+                            return fw::fail(format!("{sig}unit"), format!("{q}: result is not in the target scale and prefix: [{unit_text}]"));
+                        }
+                        if *value != want {
+                            return fw::fail(format!("{sig}value"), format!("{q}: expected {want}, got {value}"));
+                        }
+                        fw::pass(true, fw::hash_str(&want.to_string()))
+                    }
+                    Res::Err { msg, .. } => fw::fail(format!("{sig}refused"), format!("{q}: refused: {msg}")),
+                }
+            }
             "direct" | "chain3" | "chain4" => {
                 let chain: Vec<&str> = case.data["chain"].as_array().unwrap().iter().map(|v| v.as_str().unwrap()).collect();
                 let (from, to) = (kind(chain[0]), kind(chain[chain.len() - 1]));
